@@ -60,7 +60,7 @@ KidLists(S, full) == Singles(S) \o (IF full THEN AllPairs(S) ELSE NeighbourPairs
 StrKeys == <<kb, ka, kB, kE, kQ, kLt, <<>>, kScr>>
 StrKey(x) == StrKeys[((x - 1) % Len(StrKeys)) + 1]
 \* a map[string]any whose entries are listed in NON-sorted order for most x
-MapOf(kl, x) == DMap("string", [y \in 1..Len(kl) |-> E(StrKey(x + 3 * (y - 1)), kl[y])])
+MapOf(kl, x) == DMap("string", Tup([y \in 1..Len(kl) |-> E(StrKey(x + 3 * (y - 1)), kl[y])]))
 ContainersOver(S, full) ==
   LET KL == KidLists(S, full) IN
      [x \in 1..Len(KL) |-> DSlice(0, KL[x])] \o [x \in 1..Len(KL) |-> DArray(0, KL[x])] \o [x \in 1..Len(KL) |-> MapOf(KL[x], x)]
@@ -109,7 +109,7 @@ Maps == <<
 Depth1 == ContainersOver(Leaves, Full) \o Structs \o Typed \o Maps
 
 \* composites used as children at the next level
-Pick(S, step) == [x \in 1..(Len(S) \div step) |-> S[x * step]]
+Pick(S, step) == Tup([x \in 1..(Len(S) \div step) |-> S[x * step]])
 Kids2 == <<DNilSlice(0), DSlice(0, <<>>), DSlice(0, <<DNil, F64(f15)>>), DSlice(1, <<I64(n0), I64(nm1)>>), DSlice(0, <<F64(txtNaN)>>),
            DMap("string", <<>>), DNilMap("string"), DMap("string", <<E(kb, I64(n7)), E(ka, DNil)>>),
            DMap("int", <<E(k10, DStr(sA)), E(k2, DNil)>>), DMap("bool", <<E(kTrue, I64(n7))>>),
@@ -142,7 +142,7 @@ ASSUME CorpusOk /\ EqualOk /\ DifferOk
 \* style 1: compact, plain digits; style 2: spaces, scientific notation d.ddde+X, every string byte as an escape
 RECURSIVE PrintV(_, _, _), PJoin(_, _, _)
 PJoin(parts, i, sep) == IF i > Len(parts) THEN <<>> ELSE (IF i > 1 THEN sep ELSE <<>>) \o parts[i] \o PJoin(parts, i + 1, sep)
-PDigits(ds) == [x \in 1..Len(ds) |-> 48 + ds[x]]
+PDigits(ds) == Tup([x \in 1..Len(ds) |-> 48 + ds[x]])
 PNum(v, style) ==
   LET sign == IF v.n = 1 THEN <<45>> ELSE <<>>  n == Len(v.s) IN
   IF n = 0 THEN <<48>>
@@ -170,33 +170,51 @@ PrintV(v, L, style) ==
     [] v.t = "num" -> PNum(v, style)
     [] v.t = "str" -> IF style = 1 THEN <<34>> \o PStr1(v.s, 1, L) \o <<34>>
                       ELSE IF L = "js" THEN <<39>> \o PStr2(v.s, 1) \o <<39>> ELSE <<34>> \o PStr2(v.s, 1) \o <<34>>
-    [] v.t = "arr" -> <<91>> \o (IF style = 2 THEN <<32>> ELSE <<>>) \o PJoin([x \in 1..Len(v.k) |-> PrintV(v.k[x], L, style)], 1, IF style = 2 THEN <<32, 44, 10>> ELSE <<44>>) \o <<93>>
-    [] v.t = "obj" -> <<123>> \o PJoin([x \in 1..(Len(v.k) \div 2) |-> PrintV(v.k[2 * x - 1], L, style) \o (IF style = 2 THEN <<32, 58, 9>> ELSE <<58>>) \o PrintV(v.k[2 * x], L, style)], 1, <<44>>)
+    [] v.t = "arr" -> <<91>> \o (IF style = 2 THEN <<32>> ELSE <<>>) \o PJoin(Tup([x \in 1..Len(v.k) |-> PrintV(v.k[x], L, style)]), 1, IF style = 2 THEN <<32, 44, 10>> ELSE <<44>>) \o <<93>>
+    [] v.t = "obj" -> <<123>> \o PJoin(Tup([x \in 1..(Len(v.k) \div 2) |-> PrintV(v.k[2 * x - 1], L, style) \o (IF style = 2 THEN <<32, 58, 9>> ELSE <<58>>) \o PrintV(v.k[2 * x], L, style)]), 1, <<44>>)
                       \o (IF style = 2 THEN <<13, 10>> ELSE <<>>) \o <<125>>
     [] v.t = "nonfinite" -> IF v.e = 0 THEN wNaN ELSE IF v.e = 1 THEN wInfinity ELSE <<45>> \o wInfinity
     [] v.t = "date" -> PDate(v, style)
 RECURSIVE HasUnprintable(_, _)
 HasUnprintable(v, style) == (v.t = "date" /\ ~(style = 1 /\ v.s[1] >= 0 /\ v.s[1] < 20000)) \/ \E x \in 1..Len(v.k) : HasUnprintable(v.k[x], style)
 
-(* ---------- the walk: one state per descriptor ---------- *)
-VARIABLE ci
-Init == ci = 1
-Next == ci < Len(Descs) /\ ci' = ci + 1
-D == Descs[ci]
-PrintParseFor(L, style) ==
-  LET a == Abs(D, L, Strict) IN
-  IsBad(a) \/ (L = "json" /\ HasNonFinite(a)) \/ HasUnprintable(a, style) \/ ParseWhole(PrintV(a, L, style), L) = a
-PrintParse == PrintParseFor("json", 1) /\ PrintParseFor("json", 2) /\ PrintParseFor("js", 1) /\ PrintParseFor("js", 2)
-
+(* ---------- the walk: one state per descriptor (a two-level fan, so that TLC's workers share it).
+   vd = the verdicts on the transcription's output for the descriptor reached. ---------- *)
+VARIABLES ci,                   \* 0: root; -b: block b; x > 0: descriptor x
+          vd                    \* verdicts on the transcription's output for descriptor ci
+NB == 32
 ModelRec(d, L, fix) == [id |-> 0, ctx |-> IF L = "js" THEN "js_script" ELSE "json_file", desc |-> d, st |-> "ok", out |-> Model(d, L, fix)]
+PrintParseOf(a, L, style) ==
+  IsBad(a) \/ (L = "json" /\ HasNonFinite(a)) \/ HasUnprintable(a, style) \/ ParseWhole(PrintV(a, L, style), L) = a
+PrintParseBoth(d) == LET aj == Abs(d, "json", Strict)  as == Abs(d, "js", Strict) IN
+                     PrintParseOf(aj, "json", 1) /\ PrintParseOf(aj, "json", 2) /\ PrintParseOf(as, "js", 1) /\ PrintParseOf(as, "js", 2)
+\* (the two transcriptions differ only where a non-finite float is printed)
+VerdictsOf(d) ==
+  LET vjs == Verdict(ModelRec(d, "js", FALSE))  vjson == Verdict(ModelRec(d, "json", FALSE)) IN
+     [js |-> vjs, json |-> vjson,
+      jsfix |-> IF DescNonFinite(d) THEN Verdict(ModelRec(d, "js", TRUE)) ELSE vjs,
+      jsonfix |-> IF DescNonFinite(d) THEN Verdict(ModelRec(d, "json", TRUE)) ELSE vjson,
+      pp |-> PrintParseBoth(d)]
+NoVerdicts == [js |-> "ok", json |-> "ok", jsfix |-> "ok", jsonfix |-> "ok", pp |-> TRUE]
+\* evaluated once, as a constant (TLC caches LET-bound values in constants, not inside actions: see Trace_ValueLit)
+AllVerdicts == Tup([x \in 1..Len(Descs) |-> VerdictsOf(Descs[x])])
+Init == ci = 0 /\ vd = NoVerdicts
+Next == \/ ci = 0 /\ ci' \in {0 - b : b \in 1..NB} /\ vd' = vd
+        \/ ci < 0 /\ ci' \in {x \in 1..Len(Descs) : x % NB = (0 - ci) - 1} /\ vd' = AllVerdicts[ci']
+
+\* the reference parsers invert two independent reference printers on every Abs value of the space
+PrintParse == vd.pp
 AsFoundCauses == {"non-finite-float", "embedded-struct-not-flattened", "nil-byte-slice-as-empty-string", "time-subsecond-dropped",
                   "js-date-negative-subhour-offset"}
 \* the transcription satisfies the property except for the named as-found causes ...
-ModelMeetsRefExceptAsFound == \A L \in {"js", "json"} : LET v == Verdict(ModelRec(D, L, FALSE)) IN v = "ok" \/ IsSkip(v) \/ v \in AsFoundCauses
-\* ... and with the proposed fix of the non-finite case that cause is gone, nothing else changes
-FixRemovesNonFinite == \A L \in {"js", "json"} : LET v == Verdict(ModelRec(D, L, TRUE))  w == Verdict(ModelRec(D, L, FALSE)) IN
-                          v # "non-finite-float" /\ (w # "non-finite-float" => v = w)
-\* the model's output is always a sentence of the language unless a non-finite float is involved
-ModelAlwaysParses == \A L \in {"js", "json"} : LET a == Abs(D, L, Strict) IN
-                        IsBad(a) \/ HasNonFinite(a) \/ ~IsBad(ParseWhole(Model(D, L, FALSE), L))
+ModelMeetsRefExceptAsFound == \A v \in {vd.js, vd.json} : v = "ok" \/ IsSkip(v) \/ v \in AsFoundCauses
+\* ... and with the proposed fix of the non-finite case that cause is gone and nothing else changes
+FixRemovesNonFinite == /\ vd.jsfix # "non-finite-float" /\ vd.jsonfix # "non-finite-float"
+                       /\ (vd.js # "non-finite-float" => vd.jsfix = vd.js) /\ (vd.json # "non-finite-float" => vd.jsonfix = vd.json)
+\* the transcription's output is always a sentence of the language unless a non-finite float is involved
+ModelAlwaysParses == \A v \in {vd.js, vd.json, vd.jsfix, vd.jsonfix} : v \notin {"not-a-literal", "unbound-identifier", "skip_out_undefined"}
+\* non-vacuity: every as-found cause, "ok" and a skip verdict occur somewhere in the space
+Occurring == {AllVerdicts[x].js : x \in 1..Len(Descs)} \cup {AllVerdicts[x].json : x \in 1..Len(Descs)}
+ASSUME PrintT(<<"verdicts occurring", Occurring>>)
+ASSUME AsFoundCauses \subseteq Occurring /\ "ok" \in Occurring /\ "skip_ref_undefined" \in Occurring
 =============================================================================
